@@ -109,16 +109,31 @@ def _worker(task):
                     for bare in (0, 1, 'a', '*', '**'):
                         variants.append(((bare,), bare, kms[0][0] if mod is klepto else kms[1][0], kms[0][1] if mod is klepto else kms[1][1],
                                          (mod, alg)))
+                    # ... and with the decorator object rebuilt from itself before it is applied (copy.copy / a pickle round
+                    # trip go through the decorator's __reduce__): the rebuilt decorator has the same ignore specification
+                    for via in ('copy', 'pickle'):
+                        for bare in ('a', (0,)):
+                            variants.append(((bare,) if not isinstance(bare, tuple) else bare, bare,
+                                             kms[0][0] if mod is klepto else kms[1][0], kms[0][1] if mod is klepto else kms[1][1],
+                                             (mod, alg, via)))
         for ign, ign_arg, kmname, mk, deco in variants:
             if True:
                 if deco is not None:
                     f = plain.compile()
-                    mod, alg = deco
+                    mod, alg = deco[:2]
+                    via = deco[2] if len(deco) > 2 else None
                     kw = {} if alg in ('no', 'inf') else {'maxsize': 100000}
-                    W = getattr(mod, alg + '_cache')(keymap=mk(), ignore=ign_arg, **kw)(f)
+                    D = getattr(mod, alg + '_cache')(keymap=mk(), ignore=ign_arg, **kw)
+                    if via == 'copy':
+                        import copy
+                        D = copy.copy(D)
+                    elif via == 'pickle':
+                        import pickle
+                        D = pickle.loads(pickle.dumps(D))
+                    W = D(f)
                     prefix = ()
                     counter = f.CALLS
-                    kmname = '%s %s.%s_cache(ignore=%r)' % (kmname, mod.__name__, alg, ign_arg)
+                    kmname = '%s %s.%s_cache(ignore=%r)%s' % (kmname, mod.__name__, alg, ign_arg, ' rebuilt by %s' % via if via else '')
                 elif form == 'partial(boundmethod,1)':
                     import functools
                     g = meth.compile()
